@@ -61,8 +61,15 @@ var jobTable = map[string]jobSet{
 			// a receiving application that starts late: more than a window
 			// of messages arrives before the first Recv
 			{Scenario: "uni/N=2/k=6/rpre=4s", Budgets: bs(B(0, 1)), Split: 1},
+			// a transient write error: one call of a send function fails
+			// (whatever packet it carries - DATA, ACK, a retransmission);
+			// the connection may fail visibly, the prefix property stays
+			{Scenario: "uni/N=2/k=4/senderr", Budgets: bs(B(1, 1), B(0, 2)), Split: 1},
+			{Scenario: "bidi/N=2/k1=2/k2=2/senderr", Budgets: bs(B(0, 2)), Split: 1},
 		},
 		thorough: []Job{
+			{Scenario: "uni/N=2/k=4/senderr", Budgets: bs(B(2, 1), B(1, 2), B(0, 3)), Split: 2},
+			{Scenario: "bidi/N=2/k1=2/k2=2/senderr", Budgets: bs(B(1, 1), B(0, 3)), Split: 2},
 			{Scenario: "chunkto/c=2/lens=5,3/rt=500ms", Budgets: bs(B(1, 1), B(0, 3)), Split: 2},
 			{Scenario: "uni/N=1/k=5", Budgets: bs(B(2, 1), B(1, 2), B(0, 3)), Split: 2},
 			{Scenario: "uni/N=2/k=7", Budgets: bs(B(2, 1), B(1, 2), B(0, 3)), Split: 2},
@@ -88,8 +95,15 @@ var jobTable = map[string]jobSet{
 			// a transport whose send call blocks until its context ends:
 			// Close may spend the FIN timeout on the FIN, nothing more
 			{Scenario: "closeblock/N=1/closers=1", Budgets: bs(B(1, 0)), Split: 1},
+			// a connection that closes itself (keepalive timeout: nothing
+			// arrives from the peer any more) while its own sending
+			// direction still works tells the peer by a FIN like any Close
+			{Scenario: "kadead/N=2/kaside=c/k=1/onedir=s2c", Budgets: bs(B(0, 1)), Split: 1},
+			{Scenario: "kadead/N=2/kaside=s/k=3/onedir=c2s", Budgets: bs(B(0, 1)), Split: 1},
 		},
 		thorough: []Job{
+			{Scenario: "kadead/N=2/kaside=c/k=1/onedir=s2c", Budgets: bs(B(1, 1)), Split: 2},
+			{Scenario: "kadead/N=2/kaside=s/k=3/onedir=c2s", Budgets: bs(B(1, 1)), Filter: "keepalive", Split: 2},
 			{Scenario: "closestall/N=1/adaptive/until=14s", Budgets: bs(B(2, 0)), Split: 2},
 			{Scenario: "closeblock/N=1/closers=2", Budgets: bs(B(2, 0)), Split: 2},
 			{Scenario: "closeblock/N=2/side=c", Budgets: bs(B(2, 0)), Split: 2},
@@ -276,6 +290,10 @@ func init() {
 			{Scenario: "kadead/N=2", Budgets: bs(B(0, 1)), Split: 1},
 			{Scenario: "kadead/N=2/kaside=c/k=1", Budgets: bs(B(0, 1)), Split: 1},
 			{Scenario: "kadead/N=2/kaside=s/k=1", Budgets: bs(B(0, 1)), Split: 1},
+			// only one direction goes silent: the side that hears nothing
+			// gives up and tells the peer, whose end closes too
+			{Scenario: "kadead/N=2/kaside=c/k=1/onedir=s2c", Budgets: bs(B(0, 1)), Split: 1},
+			{Scenario: "kadead/N=2/k=3/onedir=c2s", Budgets: bs(B(0, 1)), Split: 1},
 			{Scenario: "kadead/N=1/ka=2s,1s", Budgets: bs(B(0, 1)), Split: 1},
 			{Scenario: "kadead/N=1/ka=1s,3s/kaside=s/k=1", Budgets: bs(B(0, 1)), Split: 1},
 			{Scenario: "kadead/N=2/ka=1s,3s/kaside=c/k=4", Budgets: bs(B(0, 1)), Split: 1},
